@@ -210,3 +210,10 @@ Definition parse_bin_gen (checked : bool) (s : bytes) : pout :=
   end.
 
 Definition parse_bin : bytes -> pout := parse_bin_gen true.
+
+(* the opcodes whose frames carry a data block *)
+Definition is_set_op (op : N) : bool :=
+  existsb (N.eqb op) [opSet; opSetQ; opAdd; opAddQ; opReplace; opReplaceQ].
+Definition is_cat_op (op : N) : bool :=
+  existsb (N.eqb op) [opAppend; opAppendQ; opPrepend; opPrependQ].
+
